@@ -16,6 +16,10 @@ pub enum HOp {
     /// sleep() / wake() whose very first low-level operation fails (nothing reaches the controller)
     FailedSleep,
     FailedWake,
+    /// sleep() / wake() whose k-th low-level operation fails (the D/C write, the transfer of the command
+    /// byte, a data pin, a strobe ...)
+    FailedSleepAt(u8),
+    FailedWakeAt(u8),
     Pixel { x: u16, y: u16, seed: u32 },
     Fill { seed: u32 },
     Orient(Orient),
@@ -130,6 +134,43 @@ pub fn check(c: &HistCase, info: &mut CaseInfo) -> Result<(), String> {
                 }
                 failed_calls += 1;
             }
+            HOp::FailedSleepAt(k) | HOp::FailedWakeAt(k) => {
+                let to_sleep = matches!(op, HOp::FailedSleepAt(_));
+                let (armed, n0) = {
+                    let mut wb = w.borrow_mut();
+                    let a = wb.ops + *k as u64;
+                    wb.fail_at = vec![a];
+                    (a, wb.panel.sleep_log.len())
+                };
+                let r = if to_sleep { d.sleep() } else { d.wake() };
+                w.borrow_mut().fail_at.clear();
+                let (reached, delivered) = {
+                    let wb = w.borrow();
+                    (wb.ops > armed, wb.panel.sleep_log.len() != n0)
+                };
+                match r {
+                    // the call succeeded as far as its caller can tell (whether or not the armed operation was reached)
+                    Ok(()) => {
+                        model_sleeping = to_sleep;
+                        if reached {
+                            failed_calls += 1;
+                        }
+                    }
+                    Err(_) if !reached => return Err(format!("{}: returned an error although no operation failed", when)),
+                    Err(_) if !delivered => {
+                        // nothing reached the controller: neither the flag nor the controller may have changed
+                        failed_calls += 1;
+                    }
+                    Err(_) => {
+                        // the command was delivered and a later operation of the call failed: the two clauses
+                        // of the property cannot both be met from here on (see DESIGN.md, C13e); the history ends
+                        info.label("history-ends-at-torn-call");
+                        info.nontrivial = transitions > 0 || repeats > 0;
+                        return Ok(());
+                    }
+                }
+                spacing(&w.borrow(), &when).or_else(|e| if reached { Ok(()) } else { Err(e) })?;
+            }
             HOp::Pixel { x, y, seed } => {
                 let (lw, lh) = cfg.logical_size(orient);
                 d.set_pixel((*x as u32 % lw) as u16, (*y as u32 % lh) as u16, colour_of(*seed, 0, d.bits())).map_err(|e| format!("{}: {:?}", when, e))?;
@@ -174,6 +215,8 @@ pub fn strategy() -> BoxedStrategy<HistCase> {
         4 => Just(HOp::Wake),
         1 => Just(HOp::FailedSleep),
         1 => Just(HOp::FailedWake),
+        1 => (0u8..6).prop_map(HOp::FailedSleepAt),
+        1 => (0u8..6).prop_map(HOp::FailedWakeAt),
         2 => (any::<u16>(), any::<u16>(), any::<u32>()).prop_map(|(x, y, seed)| HOp::Pixel { x, y, seed }),
         1 => any::<u32>().prop_map(|seed| HOp::Fill { seed }),
         2 => gen::orient().prop_map(HOp::Orient),
